@@ -9,6 +9,7 @@ import (
 	"regexp"
 	"runtime/debug"
 	"runtime/pprof"
+	"slices"
 	"strings"
 	"sync"
 
@@ -853,7 +854,8 @@ func (s *scope) interpretSlice(obj pyObject, sl *Slice) pyObject {
 	switch t := obj.(type) {
 	case pyList:
 		end := s.interpretSliceExpression(obj, sl.End, newPyInt(len(t)))
-		return t[start:end]
+		// A slice of a list is a new list; it must not share storage with the original.
+		return slices.Clone(t[start:end])
 	case pyString:
 		end := s.interpretSliceExpression(obj, sl.End, newPyInt(len(t)))
 		return t[start:end]
